@@ -65,6 +65,12 @@ func checkC19(c *Ctx) {
 	c.Rule("C19-R18", "text with combining runes: what wScreen.drawCell does with the combining list is decided by the list alone, never by the main rune (a blank-cell shortcut loses the marks on a blank base)")
 	c.Expect("C19-R18", 1)
 	checkWebCombiningAlwaysSent(c, p, "C19-R18")
+	c.Rule("C19-R19", "Suspend, Resume and SetSize in any order leave the page grid equal to the logical contents: SetSize resizes the page whatever the running state (Resume does not replay the size)")
+	c.Expect("C19-R19", 1)
+	checkWebResizeUnconditional(c, p, "C19-R19")
+	c.Rule("C19-R20", "mouse callbacks are honoured only for the enabled modes: the all-modes default of EnableMouse is chosen by the absence of arguments, not by the or-ed flags being zero (an explicit empty set means none)")
+	c.Expect("C19-R20", 1)
+	checkMouseDefaultByAbsence(c, p, "C19-R20", "wScreen")
 	// R1
 	tpkg := p.pkg("")
 	if tpkg == nil {
